@@ -78,13 +78,21 @@ READ_FORMS = ['print(%(v)s and %(w)s)', '%(u)s = %(v)s and %(w)s', '%(u)s = %(v)
               'print(1 and %(v)s and %(w)s)', '%(u)s = max(%(v)s, 1)', '%(v)s']     # every variable value stays a non-zero int
 
 
+# assignments in their other forms (every value stays a non-zero int)
+ASSIGN_FORMS = ['%(v)s, %(w)s = 1, 2', '%(v)s, %(w)s = tuple([1, 2])', '%(v)s = %(w)s = 1', '%(v)s += 1', '%(v)s: int = 1', '(%(v)s, %(w)s) = (%(u)s, 1)',
+                '[%(v)s, %(w)s] = [1, 2]', '%(v)s, %(w)s = %(w)s, %(v)s', '%(v)s, %(w)s = divmod(7, 2)']
+
+
 def gen_part1(rng, depth=0, n=None):
     """random larger / deeper programs"""
     lines = []
     n = n or rng.randint(1, 4)
     for _ in range(n):
         r = rng.random()
-        if r < 0.2:
+        if r < 0.08:
+            v = rng.choice(VARS)
+            lines.append(rng.choice(ASSIGN_FORMS) % {'u': rng.choice(VARS), 'v': v, 'w': [x for x in VARS if x != v][0]})
+        elif r < 0.2:
             lines.append(rng.choice(READ_FORMS) % {'u': rng.choice(VARS), 'v': rng.choice(VARS), 'w': rng.choice(VARS)})
         elif r < 0.55 or depth >= 2:
             lines.append(rng.choice(simple_statements()))
@@ -127,6 +135,10 @@ class Tracker(dict):
             return self._max
         if name == 'len':
             return self._len
+        if name in ('int', 'str', 'tuple', 'divmod'):
+            return {'int': int, 'str': str, 'tuple': tuple, 'divmod': divmod}[name]
+        if name == '__annotations__':
+            return dict.setdefault(self, '__annotations__', {})
         if name in VARS:
             if dict.__contains__(self, name):
                 self.log.append(('r', name, self._line()))
@@ -487,8 +499,44 @@ def enclosing_construct(code, line):
     return '+'.join(sorted(kinds)) or 'branches-only'
 
 
+BINDING_FORMS = ['a, *b = 1, 2, 3', '*a, b = 1, 2, 3', 'print(a := 1)', 'b = (a := 1) + 1', 'a: int', 'b: str', 'a: int = 1']
+PLAIN_ATOMS = ['print(a)', 'print(b)', 'a = 1', 'b = a', 'print(a, b)']
+
+
+def binding_form_programs():
+    """the other ways a name gets (or does not get) bound: starred targets, assignment expressions - also in a branch condition -,
+    a bare annotation (which binds nothing). Reads are prints only (a starred name holds a list)."""
+    atoms = [[x] for x in BINDING_FORMS + PLAIN_ATOMS]
+    ifs = []
+    for b1 in atoms:
+        ifs.append(["if input() == '1':"] + indent(b1))
+        for b2 in atoms:
+            if b1[0] in BINDING_FORMS or b2[0] in BINDING_FORMS:
+                ifs.append(["if input() == '1':"] + indent(b1) + ['else:'] + indent(b2))
+    ifs.append(["if (a := input()) == '1':", '    print(a)'])
+    ifs.append(["if (a := input()) == '1':", '    b = a', 'else:', '    print(a)'])
+    tail = [[x] for x in PLAIN_ATOMS]
+    out = []
+    for first in atoms + ifs:
+        uses_form = any(f in l for l in first for f in BINDING_FORMS) or ':=' in first[0]
+        for second in tail + ([x for x in atoms if x[0] in BINDING_FORMS] if not uses_form else []):
+            if not uses_form and second[0] not in BINDING_FORMS:
+                continue
+            out.append('\n'.join(first + second) + '\n')
+            for third in tail:
+                out.append('\n'.join(first + second + third) + '\n')
+    return out
+
+
 def run(ctx):
     rng = ctx.rng
+    forms = binding_form_programs()
+    mine = forms[ctx.shard::ctx.nshards]
+    if ctx.quick():
+        rng.shuffle(mine)
+    for code in mine[:ctx.pick(250, len(mine))]:
+        ctx.count('binding_form_programs')
+        check_part1(ctx, code)
     # part 1: exhaustive for the small sizes (striped over the shards)
     max_len = ctx.pick(2, 3)
     for i, code in enumerate(enumerate_part1(max_len)):
